@@ -401,9 +401,17 @@ func (g *gen) specs(role spectypes.BeaconRole, e era) (honest []*mspec, mutants 
 		}
 	}
 	// -- topic
-	for _, n := range reps {
+	for i, n := range reps {
 		m := add(main.get(n), "topic-wrong-subnet", "", "wrong-topic", "topic not found")
 		m.topicShift = 1
+		if i == 0 {
+			// every other advertised topic, for one representative message (a topic whose number merely
+			// ends in the digits of the validator's subnet is among them for subnets 0..27)
+			for shift := 2; shift < 128; shift++ {
+				m := add(main.get(n), fmt.Sprintf("topic-wrong-subnet+%d", shift), "", "wrong-topic", "topic not found")
+				m.topicShift = shift
+			}
+		}
 	}
 	// -- envelope
 	var envReps []string
